@@ -11,6 +11,10 @@ CONSTANT L                       \* maximal number of tokens
 Names == {"a", "b"}
 Leaves == {"a", "b", "items", "+m"}
 Conn == {".", ":"}
+\* the deep configuration (cfg: Leaves <- LeavesDeep, Conn <- ConnDeep): only names and ".", twice as many tokens - long
+\* enough for groups nested under a parent whose branches begin alike ("a.[b.a,b.b]")
+LeavesDeep == {"a", "b"}
+ConnDeep == {"."}
 Tok == Leaves \cup {"*"} \cup Conn \cup {",", "[", "]"}
 
 \* a member of a syntactic category: [s |-> token string, t |-> parse tree]
